@@ -7,8 +7,19 @@ exactly at the end of the input - the place where a read one byte too far become
 (UTCTime / GeneralizedTime) additionally get a variant without their zone designator.  All of these are rejected by a
 correct parser (the structure is incomplete); none is hand-made for a particular function.
 
-Reads corpus/C09/<target>/<seed>, writes corpus/C09/<target>/cut_<seed>_<nn>[z].  Deterministic, no key material is
-generated.  Usage: python3 props/C09/make_tail_time_seeds.py
+Header cuts (second half of this file, hdr_* seeds; OCSP responses and private keys): the same closure at byte level for
+the place where a parser is most likely to look one octet too far - inside a tag/length header.  For every TLV N (in
+document order, the first max_nodes of a seed) the input is cut so that it ends
+  (a) after every proper prefix of N's header (tag only, tag + first length octets, ...),
+  (b) right after N's complete header (N claims its content, none is present; also with N re-encoded as empty),
+  (c) after N's header re-written in the long forms 0x81 / 0x82 and cut one octet short (tag 81 | tag 82 01),
+with everything behind the cut removed and the lengths of all enclosing TLVs re-encoded to what is really present
+(m=0), or the same with the innermost enclosing TLV keeping the length it originally claimed (m=1: an optional
+trailing member that announces more than its parent holds).  Every one of them is an incomplete structure that a
+correct parser rejects without reading past the last byte; none is made for a particular function.
+
+Reads corpus/C09/<target>/<seed>, writes corpus/C09/<target>/cut_<seed>_<nn>[z] and hdr_<seed>_<node>_<variant>.
+Deterministic, no key material is generated.  Usage: python3 props/C09/make_tail_time_seeds.py
 """
 import os, struct, sys
 ROOT = os.path.join(os.path.dirname(os.path.abspath(__file__)), '..', '..', 'corpus', 'C09')
@@ -98,8 +109,112 @@ def run(target, seed, nparts, max_leaves):
         open(os.path.join(ROOT, target, 'cut_%s_%s' % (seed, name)), 'wb').write(out); n += 1
     print(target, seed, n, 'seeds')
 
+# ------------------------------------------------------------------------------------------------ header cuts
+def enc_len(n):
+    return bytes([n]) if n < 0x80 else bytes([0x80 | ((n.bit_length() + 7) // 8)]) + n.to_bytes((n.bit_length() + 7) // 8, 'big')
+
+def parse_h(b):
+    """like parse(), but every node also remembers its original header: [tag, body, header bytes]"""
+    out, off = [], 0
+    while off < len(b):
+        if off + 2 > len(b): raise ValueError
+        tag, l, hl = b[off], b[off + 1], 2
+        if l & 0x80:
+            k = l & 0x7f
+            if k == 0 or k > 3: raise ValueError
+            l = int.from_bytes(b[off + 2:off + 2 + k], 'big'); hl = 2 + k
+        c = b[off + hl:off + hl + l]
+        if len(c) != l: raise ValueError
+        body = c
+        if tag & 0x20:
+            body = parse_h(c)
+        elif tag == 0x04 and l > 2 and c[0] == 0x30:
+            try: body = parse_h(c)
+            except ValueError: body = c
+        out.append([tag, body, b[off:off + hl]]); off += hl + l
+    return out
+
+def ser_h(nodes, keep):
+    o = b''
+    for n in nodes:
+        tag, body, hdr = n
+        if isinstance(body, list): body = ser_h(body, keep)
+        if tag is None: o += body                                       # raw fragment
+        elif id(n) in keep: o += hdr + body                             # keeps the length it originally claimed
+        else: o += bytes([tag]) + enc_len(len(body)) + body
+    return o
+
+def all_nodes(nodes, path=()):
+    for i, n in enumerate(nodes):
+        yield path + (i,)
+        if isinstance(n[1], list): yield from all_nodes(n[1], path + (i,))
+
+def cut_at(nodes, path, repl):
+    """copy of the tree in which the node at `path` is replaced by `repl` and everything behind it is removed;
+    returns (tree, parent of the replaced node or None)"""
+    i = path[0]
+    kept = [[t, b, h] for t, b, h in nodes[:i]]
+    if len(path) == 1:
+        kept.append(repl)
+        return kept, None
+    sub, parent = cut_at(nodes[i][1], path[1:], repl)
+    me = [nodes[i][0], sub, nodes[i][2]]
+    kept.append(me)
+    return kept, (parent if parent is not None else me)
+
+def header_variants(der, max_nodes):
+    tree = parse_h(der)
+    res, seen = [], set()
+    def add(name, nodes, keep):
+        out = ser_h(nodes, keep)
+        if out and out not in seen:
+            seen.add(out); res.append((name, out))
+    for k, p in enumerate(all_nodes(tree)):
+        if k >= max_nodes: break
+        n = tree
+        for i in p: n = n[i] if n is tree else n[1][i]
+        tag, hdr = n[0], n[2]
+        frags = [('a%d' % j, hdr[:j]) for j in range(1, len(hdr))] + [('c1', bytes([tag, 0x81])), ('c2', bytes([tag, 0x82, 0x01]))]
+        for vn, f in frags:
+            t, parent = cut_at(tree, p, [None, f, b''])
+            add('%02d%s' % (k, vn), t, set())
+            if parent is not None and vn[0] == 'a': add('%02d%sm' % (k, vn), t, {id(parent)})
+        empty = [tag, b'', hdr]
+        t, parent = cut_at(tree, p, empty)
+        add('%02db' % k, t, set())
+        add('%02dbm' % k, t, {id(empty)})
+    return res
+
+def run_hdr(target, seed, nparts, max_nodes, part=-1, drop_others=False, hdrs=None):
+    path = os.path.join(ROOT, target, seed)
+    hdr, parts = split(open(path, 'rb').read(), nparts)
+    src = parts[part]
+    if src.lstrip().startswith(b'-----BEGIN'):                          # PEM part: cut the DER, store it as DER
+        import base64, re
+        src = base64.b64decode(re.search(rb'-----BEGIN [^-]+-----(.*?)-----END', src, re.S).group(1))
+    n = 0
+    for name, der in header_variants(src, max_nodes):
+        ps = [b'' if drop_others else x for x in parts]
+        ps[part] = der
+        for h in (hdrs or [hdr]):
+            out = join(h, ps)
+            if len(out) > 8192: continue
+            open(os.path.join(ROOT, target, 'hdr_%s_%s%s' % (seed, name, '' if h == hdr else '_%02x' % h)), 'wb').write(out); n += 1
+    print(target, seed, n, 'header-cut seeds')
+
 if __name__ == '__main__':
     run('c09_crl', 'crl_rsa', 2, 40)            # [sel][len(CA)][CA][CRL]
     run('c09_crl', 'crl_noca', 2, 16)
     run('c09_ocsp_response', 'rsa_byname', 3, 40)   # [sel][len(CA)][len(subject)][CA][subject][response]
     run('c09_ocsp_response', 'rsa_bykey_nonce', 3, 40)
+    # header cuts: OCSP responses (ResponseData region; the certificates and the subject are not needed to reach the parser)
+    run_hdr('c09_ocsp_response', 'rsa_revoked', 3, 70, drop_others=True)
+    run_hdr('c09_ocsp_response', 'rsa_bykey_nonce', 3, 45, drop_others=True)
+    # header cuts: private keys in every native encoding, through the trial parsers (selector 0 = psParseUnknownPrivKeyMem,
+    # 6 = psEd25519ParsePrivKey, 2 / 3 = the RSA / EC parser) and through PKCS#8 / matrixSslLoadKeysMem
+    run_hdr('c09_privkey_any', 'rsa1024_unknown', 1, 12, hdrs=[0, 2, 6])
+    run_hdr('c09_privkey_any', 'ec256_unknown', 1, 12, hdrs=[0, 3, 6])
+    run_hdr('c09_privkey_any', 'ed25519', 1, 12, hdrs=[0, 6])
+    run_hdr('c09_pkcs8', 'p8_ec256', 1, 16)
+    run_hdr('c09_pkcs8', 'p8_ed', 1, 12)
+    run_hdr('c09_load_keys_mem', 'ed25519', 3, 8, part=1)
